@@ -1053,4 +1053,34 @@ example : parCorrSqG (fun a b => covTo 4 (fun k => [[1, 2, 4, 3], [2, 1, 3, 5], 
     (fun k => [[1, 2, 4, 3], [2, 1, 3, 5], [0, 1, 0, 2]].getD b [] |>.getD k (0 : Rat))) [2] 0 1 = 11 / 36 := by
   decide +kernel
 
+/-! ## round 3: index arithmetic of the pure-Python class regenerated from the source -/
+
+open Pyunicorn.Generated.ArithC10 in
+/-- **pair loops**: `range(N - only_tri)` rows and `range((i+1)*only_tri, N)` columns of the source
+(both in `_calculate_cc` and `_calculate_mi`) are the bounds the model's `pairMat` / `pairRow` use:
+with `only_tri = 1` the strict upper triangle, with `only_tri = 0` every pair -/
+theorem arith_pair_loops (N i ot : Nat) :
+    pairRows (N : Int) (ot : Int) = (N : Int) - (ot : Int) ∧
+      pairColLo (i : Int) (ot : Int) = (((i + 1) * ot : Nat) : Int) ∧
+      pairRowsMi (N : Int) (ot : Int) = pairRows (N : Int) (ot : Int) ∧
+      pairColLoMi (i : Int) (ot : Int) = pairColLo (i : Int) (ot : Int) ∧
+      (pairColLo (i : Int) 1 ≤ (N : Int) - 1 ↔ i + 1 < N) ∧ pairColLo (i : Int) 0 = 0 := by
+  unfold pairRows pairColLo pairRowsMi pairColLoMi
+  refine ⟨rfl, by push_cast; ring, rfl, rfl, by omega, by ring⟩
+
+open Pyunicorn.Generated.ArithC10 in
+/-- **time surrogate**: the column picked for slice `t` and drawn time `p ≥ tau_max` is
+`p + (t - tau_max)` — the model's `perm s + t - tauMax` — and lies inside the data for
+`p < total_time - tau_max`, `t ≤ 2 tau_max`; the shuffled surrogate uses the window length of
+`cross_correlation` (`pureRange`); `_calculate_mi` reports the signed lag `t - tau_max` -/
+theorem arith_time_surrogate (T tauMax t p : Nat) (hp : tauMax ≤ p) (hpT : p + tauMax < T)
+    (ht : t ≤ 2 * tauMax) :
+    tsurrIdx (p : Int) (tsurrTau (t : Int) (tauMax : Int)) = ((p + t - tauMax : Nat) : Int) ∧
+      0 ≤ tsurrIdx (p : Int) (tsurrTau (t : Int) (tauMax : Int)) ∧
+      tsurrIdx (p : Int) (tsurrTau (t : Int) (tauMax : Int)) < (T : Int) ∧
+      ssurrRange (T : Int) (tauMax : Int) = pureRange (T : Int) (tauMax : Int) ∧
+      pureMiTau (t : Int) (tauMax : Int) = (t : Int) - (tauMax : Int) := by
+  unfold tsurrIdx tsurrTau ssurrRange pureRange pureMiTau
+  refine ⟨by omega, by omega, by omega, rfl, rfl⟩
+
 end Pyunicorn.Coupling
